@@ -195,6 +195,16 @@ func (c *gen) class() *Expr {
 	if c.cfg.EmptyClass && c.chance(5, "emptyclass") {
 		n = 0
 	}
+	if c.cfg.Profile == "frontend" && c.chance(5, "hyphenbait") {
+		// a member hyphen between two characters with a class escape (or a range) for the
+		// speller to put next to it: [a\pL-z] holds a, \pL, - and z
+		e.Chars = []rune{Pick(c.t, []rune{'a', '0', '_'}, "hb1"), '-', Pick(c.t, []rune{'z', '9', 'é'}, "hb2")}
+		e.UClasses = []string{Pick(c.t, UClassPool, "hbucl")}
+		if c.chance(40, "hbrange") {
+			e.Ranges = []rune{'b', 'd'}
+		}
+		return e
+	}
 	for i := 0; i < n; i++ {
 		switch k := c.intn(0, 9, "classitem"); {
 		case k < 5:
@@ -429,6 +439,17 @@ func (c *gen) bait() (*Expr, bool) {
 			} else {
 				e.Sub = append(e.Sub, c.relatedClass())
 			}
+		}
+		return e, false
+	}
+	if c.chance(8, "splitrune") {
+		// adjacent literals that are pieces of one rune's encoding ( "\xc3" "\xa9" ): each piece
+		// is not UTF-8 by itself and matches one invalid byte (or U+FFFD); joined they would be é
+		enc := []byte(string(Pick(c.t, []rune{'é', '日', '😀'}, "splitwhat")))
+		at := c.intn(1, len(enc)-1, "splitat")
+		e := &Expr{K: KSeq, Sub: []*Expr{{K: KLit, Val: append([]byte{}, enc[:at]...)}, {K: KLit, Val: append([]byte{}, enc[at:]...)}}}
+		if c.chance(40, "splitprefix") {
+			e.Sub = append([]*Expr{c.lit()}, e.Sub...)
 		}
 		return e, false
 	}
